@@ -448,7 +448,11 @@ class Interpolator:
                         string = expr_map[node]
                         formatting_string += "${%s}" % string
                         keys.append(ast.Constant(string))
-                        values.append(node)
+                        # (a value that is dropped renders as nothing)
+                        values.append(template(
+                            "NODE if NODE is not None else ''",
+                            NODE=node, mode="eval"
+                        ))
 
                 # As for a static message, white space is reduced, what
                 # leads and trails stays outside of the message, and the
